@@ -522,9 +522,11 @@ def state_between_calls(outer, inner):
                 if isinstance(tg, ast.Name):
                     outer_bind.setdefault(tg.id, []).append(s.value)
     loaded = set(n.id for n in ast.walk(inner) if isinstance(n, ast.Name) and isinstance(n.ctx, ast.Load) and n.id not in local)
+    # local aliases of the iterator builtins (`_zip = zip`) build one-shot iterators just the same
+    alias = set(nm for nm, vs in outer_bind.items() if any(isinstance(v, ast.Name) and v.id in _ITER_BUILTINS for v in vs))
     for nm in sorted(loaded):
         for v in outer_bind.get(nm, []):
-            if _is_iterator_expr(v):
+            if _is_iterator_expr(v) or (isinstance(v, ast.Call) and isinstance(v.func, ast.Name) and v.func.id in alias):
                 out.append(('iterator', nm, v))
     for n in ast.walk(inner):
         base = None
@@ -647,4 +649,32 @@ def escaping_mutable_defaults(fnode):
                 out.append((base.id, 'item store', n))
         elif isinstance(n, ast.AugAssign) and isinstance(n.target, ast.Name) and n.target.id in cand:
             out.append((n.target.id, 'augmented in place', n))
+    return out
+
+
+def truthiness_defaults(fnode):
+    """[(name, node)]: places where a function decides "this argument was not given" by the argument's truth value - `p = p or <default>`,
+    `if not p: p = <default>` (p a parameter), or `<elem> or <default>` over the elements of a parameter inside a comprehension - so that the
+    legal values 0, 0.0, -0.0, '' and empty containers are replaced too"""
+    params = set(a.arg for a in fnode.args.args + fnode.args.kwonlyargs)
+    out = []
+    for st in ast.walk(fnode):
+        if isinstance(st, ast.Assign) and len(st.targets) == 1 and isinstance(st.targets[0], ast.Name) and st.targets[0].id in params:
+            v, p = st.value, st.targets[0].id
+            if isinstance(v, ast.BoolOp) and isinstance(v.op, ast.Or) and isinstance(v.values[0], ast.Name) and v.values[0].id == p:
+                out.append((p, st))
+        if isinstance(st, ast.If):
+            t_, neg = st.test, False
+            while isinstance(t_, ast.UnaryOp) and isinstance(t_.op, ast.Not):
+                t_, neg = t_.operand, not neg
+            if isinstance(t_, ast.Name) and t_.id in params:
+                for s2 in (st.body if neg else st.orelse):
+                    if isinstance(s2, ast.Assign) and any(isinstance(x, ast.Name) and x.id == t_.id for x in s2.targets):
+                        out.append((t_.id, st))
+        if isinstance(st, (ast.ListComp, ast.GeneratorExp, ast.SetComp)):
+            for g in st.generators:
+                if isinstance(g.iter, ast.Name) and g.iter.id in params and isinstance(g.target, ast.Name):
+                    e = st.elt
+                    if isinstance(e, ast.BoolOp) and isinstance(e.op, ast.Or) and isinstance(e.values[0], ast.Name) and e.values[0].id == g.target.id:
+                        out.append((g.iter.id, st))
     return out
